@@ -960,6 +960,22 @@ fn main() {
 
 pub fn run(o: &Opts) -> i32 {
     std::panic::set_hook(Box::new(|_| {}));
+    // `--pool N`: run every SortedWritesTable case inside an N-thread pool (with the parallel
+    // cut-offs taken from the environment, normally 0) so that parallel_insert / parallel_delete /
+    // parallel_rehash execute; only the logical predicates against the plain-map oracle are
+    // evaluated then (the Gallina model describes the serial single-shard layout).
+    let mut pool_threads = 0usize;
+    {
+        let mut i = 0;
+        while i < o.extra.len() {
+            if o.extra[i] == "--pool" {
+                pool_threads = o.extra[i + 1].parse().expect("pool");
+                i += 1;
+            }
+            i += 1;
+        }
+    }
+    let pool = if pool_threads > 1 { Some(egglog_concurrency::ThreadPool::new(pool_threads)) } else { None };
     let header = "From Coq Require Import List NArith.\nImport ListNotations.\nRequire Import Verif.Base.Cases Verif.Table.Model.\n";
     let mut w = CaseWriter::new(&o.out, "cases_table", header, "check_case", 150);
     let mut violations: Vec<(Case, String, String)> = Vec::new();
@@ -973,9 +989,10 @@ pub fn run(o: &Opts) -> i32 {
     let mut samples: Vec<String> = Vec::new();
 
     let mut emit = |case: &Case, w: &mut CaseWriter| {
-        let out = match case {
-            Case::S(c) => run_sorted(c),
-            Case::D(ops) => run_displaced(ops),
+        let out = match (case, &pool) {
+            (Case::S(c), Some(pl)) => pl.install(|| run_sorted(c)),
+            (Case::S(c), None) => run_sorted(c),
+            (Case::D(ops), _) => run_displaced(ops),
         };
         for (key, what) in &out.violations {
             violations.push((case.clone(), key.clone(), what.clone()));
@@ -1050,7 +1067,9 @@ pub fn run(o: &Opts) -> i32 {
             ),
             Case::D(ops) => format!("CaseD {} {}", coq_list(ops, |x| x.coq()), obs_coq(&out.obs)),
         };
-        w.push(format!("({term})"));
+        if pool.is_none() {
+            w.push(format!("({term})"));
+        }
     };
 
     if let Some(path) = &o.replay {
@@ -1071,7 +1090,16 @@ pub fn run(o: &Opts) -> i32 {
         let (ns, nd) = if o.thorough { (8000, 2000) } else { (450, 150) };
         for i in 0..ns {
             let mut r = Rng::for_case(o.seed, i as u64);
-            emit(&Case::S(gen_sorted(&mut r, o.thorough)), &mut w);
+            let mut c = gen_sorted(&mut r, o.thorough);
+            if pool.is_some() && c.sort.is_some() && !matches!(c.mk, MKind::Old | MKind::Always) {
+                // The parallel path pre-merges the rows of one batch before meeting the stored row.
+                // For a merge function that is not associative in EVERY column this legitimately
+                // differs from the one-by-one fold (New/Max/Min keep the old row, hence the old
+                // sort value, when the payload is unchanged). Only associative merge functions are
+                // compared with the sequential plain-map oracle in pool mode.
+                c.mk = if c.ops.len() % 2 == 0 { MKind::Always } else { MKind::Old };
+            }
+            emit(&Case::S(c), &mut w);
         }
         for i in 0..nd {
             let mut r = Rng::for_case(o.seed, 1_000_000 + i as u64);
@@ -1081,7 +1109,8 @@ pub fn run(o: &Opts) -> i32 {
     w.flush();
     let hist = |h: &BTreeMap<String, usize>| serde_json::to_string(h).unwrap();
     let report = format!(
-        "{{\"sub\":\"table\",\"cases\":{},\"shards\":{},\"distinct_nontrivial\":{},\"rule\":{},\"op_hist\":{},\"cfg_hist\":{},\"constraint_hist\":{},\"branch_hist\":{},\"len_hist\":{},\"samples\":[{}],\"violations\":[{}]}}\n",
+        "{{\"sub\":\"table\",\"evaluations\":{},\"cases\":{},\"shards\":{},\"distinct_nontrivial\":{},\"rule\":{},\"op_hist\":{},\"cfg_hist\":{},\"constraint_hist\":{},\"branch_hist\":{},\"len_hist\":{},\"samples\":[{}],\"violations\":[{}]}}\n",
+        distinct.len(),
         w.total,
         w.shards,
         nontrivial,
